@@ -69,7 +69,10 @@ def sim_parfor(K, body):
         return
     rnd = ctx.rnd
     ctx.parfor_calls += 1
-    W = rnd.randrange(1, min(K, ctx.max_workers) + 1)
+    m = min(K, ctx.max_workers)
+    W = rnd.randrange(1, m + 1)
+    if W == 1 and m >= 2 and rnd.random() < 0.7:   # bias towards real concurrency
+        W = rnd.randrange(2, m + 1)
     dist = rnd.choice(DISTRIBUTIONS)
     idx = list(range(K))
     if dist == "reversed":
